@@ -262,6 +262,8 @@ def apply(op, xs):
         return xs[0].append(xs[1])
     if k == "to_batch":
         return x.batch()
+    if k == "as_flows":      # search only: FlowFields(batch) constructor
+        return FlowFields(x)
     if k == "sample_grid":   # search only
         sp = x.shape[2:]
         return x.sample(mkgrid(op["gid"], sp) if op["n"] == 1 else [mkgrid(op["gid"] + i, sp) for i in range(op["n"])])
@@ -338,7 +340,7 @@ def run_step(op, operands):
 def apply_plain(op, operands):
     if op["op"] == "narrow_method":
         return torch.ones_like(plain(operands[0])).narrow(op["dim"], op["start"], op["len"])
-    if op["op"] in ("iter_build", "iter_pick", "append", "to_batch", "sample_grid", "copy"):
+    if op["op"] in ("iter_build", "iter_pick", "append", "to_batch", "sample_grid", "copy", "as_flows"):
         return None
     return apply(op, [torch.ones_like(plain(x)) if isinstance(x, Tensor) else x for x in operands])
 
@@ -374,6 +376,8 @@ def op_name(op):
         d = op.get("d", {"k": "none"})
         if d["k"] != "none" and d.get("v") != 0:
             name = "split-other-dim"
+    if k == "narrow_method" and op["start"] < 0:
+        return "narrow-negative-start"
     if k == "copy":
         return op["fn"]
     if k == "iter_build":
@@ -407,7 +411,8 @@ def site_of(op, operands):
     if k == "iter_pick":
         return cls + ".__iter__"
     if k == "narrow_method":
-        return cls + ".narrow"
+        # (a negative start is resolved in ImageBatch.narrow, which Image.narrow delegates to: one root cause for all four classes)
+        return "ImageBatch.narrow" if op["start"] < 0 else cls + ".narrow"
     if k == "copy":
         return cls + {"copy": ".__copy__", "deepcopy": ".__deepcopy__", "pickle": ".__reduce_ex__"}[op["fn"]]
     if k == "append":
@@ -416,6 +421,8 @@ def site_of(op, operands):
         return cls + ".batch"
     if k == "sample_grid":
         return cls + ".sample"
+    if k == "as_flows":
+        return "FlowFields.__init__"
     return cls + ".__torch_function__"
 
 
@@ -439,7 +446,7 @@ def oracle(op, operands, obs):
             return out      # combining flow fields with different axes is refused on purpose
         if any(typed_in) and obs.get("plain_ok") and op["op"] not in ("grid_sample",):
             out.append((key("raises-" + obs["exc"]), f"raises {obs['exc']} ({obs['msg'][:80]}) although the operation succeeds on the plain data"))
-        elif op["op"] in ("copy", "iter_build", "iter_pick", "append", "to_batch", "narrow_method", "sample_grid") and obs["exc"] not in ("IndexError", "RuntimeError"):
+        elif op["op"] in ("copy", "iter_build", "iter_pick", "append", "to_batch", "narrow_method", "sample_grid", "as_flows") and obs["exc"] not in ("IndexError", "RuntimeError"):
             out.append((key("raises-" + obs["exc"]), f"raises {obs['exc']} ({obs['msg'][:80]})"))
         return out
     ps = obs.get("plain_shapes")
@@ -543,6 +550,28 @@ def value_oracle(op, operands, before, real):
             n = int((r != before[0]).sum())
             view = "a view with storage offset %d" % operands[0].storage_offset() if operands[0].storage_offset() else "not a view"
             out.append((f"C19:{site}:{name}:data-not-preserved", f"{op['fn']} changed {n} of {r.numel()} values (the copied value is {view})"))
+    if k == "narrow_method" and hasattr(operands[0], "grids" if operands[0].__class__.__name__ in ("ImageBatch", "FlowFields") else "grid") \
+            and type(real[0]) is type(operands[0]):
+        # narrowing a spatial dimension: sample 0 of the result grid is sample `start` of the operand's grid, same spacing / direction
+        x, r = operands[0], real[0]
+        batched = hasattr(x, "grids")
+        dim = op["dim"] + x.ndim if op["dim"] < 0 else op["dim"]
+        if dim > (1 if batched else 0):
+            gdim = x.ndim - dim - 1
+            start = op["start"] + x.shape[dim] if op["start"] < 0 else op["start"]
+            src = list(x.grids()) if batched else [x.grid()]
+            res = list(r.grids()) if batched else [r.grid()]
+            for i, (gs, gr) in enumerate(zip(src, res)):
+                off = torch.zeros(1, gs.ndim, dtype=torch.double)
+                off[0, gdim] = start
+                want = gs.index_to_world(off).double()
+                got = gr.index_to_world(torch.zeros(1, gs.ndim, dtype=torch.double)).double()
+                if not torch.allclose(want, got, atol=1e-6) or not torch.allclose(gs.spacing().double(), gr.spacing().double()) \
+                        or not torch.allclose(gs.direction().double(), gr.direction().double()):
+                    out.append((f"C19:{site}:{name}:grid-not-aligned-with-data",
+                                f"narrow({op['dim']}, {op['start']}, {op['len']}): the first sample of the result grid of item {i} is at world position "
+                                f"{[round(v, 4) for v in got[0].tolist()]}, the data starts at sample {start} of the operand's grid, at {[round(v, 4) for v in want[0].tolist()]}"))
+                    break
     if k == "append" and all(isinstance(x, FlowFields) for x in operands[:2]) and isinstance(real[0], FlowFields):
         a, b, r = operands[0], operands[1], real[0]
         if len(r.grids()) == r.shape[0] == a.shape[0] + b.shape[0]:
